@@ -1,6 +1,5 @@
 package sim
 
 func genRetryManual(r *Rng, prop string) *Scenario { return genReconn(r, prop) }
-func genBase(r *Rng, prop string) *Scenario        { return genReconn(r, prop) }
 func genKeepAlive(r *Rng, prop string) *Scenario   { return genReconn(r, prop) }
-func genIDCycle(r *Rng, prop string) *Scenario     { return genReconn(r, prop) }
+func genC20(r *Rng) *Scenario                      { return genC04(r) }
